@@ -18,14 +18,16 @@ CONSTANTS MaxSel, Wide     \* Wide = TRUE: the full ranges (thorough); FALSE: th
 
 Variants == {"one", "multi", "rank", "oneM", "other", "filter", "rand", "randseed", "randseedref", "filter_rand",
              "csv", "csv_vl", "csv_rand", "xml_filter", "geojson", "geojson_rand", "geojson_v", "geojson_l", "external", "repeat", "search",
-             "search_after_modifier"}     \* search() written after another appearance word ("minimal search('f')")
+             "search_after_modifier",     \* search() written after another appearance word ("minimal search('f')")
+             "randfalse"}                 \* randomize=false written out: the select is NOT randomized
 NeedsM == {"oneM", "other", "search", "search_after_modifier"}
 Searches == {"search", "search_after_modifier"}
 Fill == IF Wide THEN {"all", "none", "first", "last", "alt"} ELSE {"all", "alt", "none"}
 NL == IF Wide THEN {1, 2, 3} ELSE {1, 3}
 NM == IF Wide THEN {0, 1, 2} ELSE {0, 2}
 XC == IF Wide THEN {0, 1, 2} ELSE {0, 2}
-Extras == IF Wide THEN 0..6 ELSE {0, 3, 5, 6}     \* 6: a last-saved reference in the second of two expression binds of one question
+Extras == IF Wide THEN 0..8 ELSE {0, 3, 5, 6, 7, 8}     \* 6: a last-saved reference in the second of two expression binds of one question
+                                                      \* 7 / 8: a pulldata() file named only in a repeat row's / a group row's own relevant cell
 ExtShapes == IF Wide THEN 0..5 ELSE {0, 2, 4, 5}     \* 5: the list column of external_choices under its alias spelling "list name"
 
 \* how the lists are named and labelled: plain names / names containing a dot (legal; only a recognised file extension means
